@@ -767,6 +767,24 @@ class FastEngine(Engine):
         self._cn = len(self.pc)
         return self._csubs
 
+    retries = 0
+
+    def _check(self, *conds):
+        """as the base class, but an `unknown` answer (seen once on a heavily overloaded machine for a trivial query) is retried with a
+        fresh solver and a longer timeout before it is reported as unsupported."""
+        for attempt in range(3):
+            s_ = z3.SolverFor("QF_BV")
+            s_.set("timeout", self.timeout_ms * (attempt + 1))
+            s_.add(*conds)
+            t = time.time()
+            r = s_.check()
+            self.solver_time += time.time() - t
+            self.queries += 1
+            if r != z3.unknown:
+                return r == z3.sat
+            self.retries += 1
+        self.unsupported("solver answered unknown on a feasibility query (3 attempts)")
+
     def known(self, cond):
         """True / False if the (simplified) condition is literally decided on this path, else None."""
         cond = z3.simplify(cond)
@@ -855,6 +873,8 @@ def explore(ctx, label, body, per_path=None, max_paths=6000):
     ctx.solver_time += eng.solver_time
     note(ctx, "pysym_paths", len(paths))
     note(ctx, "pysym_feasibility_queries", eng.queries)
+    if eng.retries:
+        note(ctx, "pysym_feasibility_retries_after_unknown", eng.retries)
     ctx.notes["pysym_explore_and_prove_s"] = round(ctx.notes.get("pysym_explore_and_prove_s", 0) + time.time() - t0, 2)
     return eng, paths, complete
 
